@@ -302,6 +302,12 @@ fn parse_ifdata_make_block(
             line,
             items: structitems,
         },
+        // a tag without data: an empty block, which is also what the store() of a generated type produces
+        GenericIfData::None => GenericIfData::Block {
+            incfile,
+            line,
+            items: Vec::new(),
+        },
         _ => GenericIfData::Block {
             incfile,
             line,
